@@ -1,8 +1,11 @@
 /-
   Phil.Proofs.IncludeLemmas — lemmas about include processing (Phil/Include.lean) for property C13:
-  one-step unfolding of `processIncludes`, refusal of a file already being expanded, adequacy of the
-  fuel `fs.length + 1`, identity on include-free object lists, the diamond, path resolution, and the
-  soundness/completeness of the cycle error with respect to the include graph.
+  one-step unfolding of `processIncludes` (`includeHere`, `includeScope`, `selectSub`), refusal of a
+  file already being expanded, adequacy of the fuel `(fs.length + 1) * (imports.length + 1) + 1`
+  when imported scopes are ranked (`ImportsRanked`; file-only corollaries with the old bound),
+  identity on include-free object lists, the diamond, path resolution, soundness/completeness of the
+  cycle error with respect to the include graph (files and imported scopes: `ReachFile`, `Includes`,
+  `IncWalk`), and the splicing laws of `include scope` (`splice`).
 -/
 import Phil.Include
 set_option linter.unusedVariables false
@@ -10,8 +13,35 @@ namespace Phil
 
 /-! ### one-step unfolding -/
 
+/-- the optional sub-path selection of `include scope p q` on the expanded imported scope -/
+def selectSub (expanded : List Obj) : Option Str → Option Nat → R (List Obj)
+  | none, _ => .ok expanded
+  | some q, line =>
+    let sel := selectPath expanded q
+    if sel.isEmpty then .error (.runtime "include_scope_not_found" line)
+    else if sel.any (anyDollar 1000) then .error (.unsupported "variable in included selection")
+    else .ok sel
+
+/-- what a well-formed `include scope p [sub]` statement contributes: the imported text is parsed, its
+    own includes are processed first (one unit of fuel, reference directory `env.cwd`, the same stack),
+    then the optional sub-path is selected -/
+def includeScope (env : IncEnv) (fuel : Nat) (stack : List Path) (p : Str) (sub : Option Str)
+    (line : Option Nat) : R (List Obj) :=
+  match env.imported p with
+  | none => .error (.unsupported "python import")
+  | some text =>
+    match parseObjs text with
+    | .error e => .error e
+    | .ok src =>
+      match fuel with
+      | 0 => .error .outOfFuel
+      | f + 1 =>
+        match processIncludes env f env.cwd stack src with
+        | .error e => .error e
+        | .ok expanded => selectSub expanded sub line
+
 /-- what a single object contributes to the processed list (the `here` of `processIncludes`) -/
-def includeHere (fs : FS) (fuel : Nat) (refdir : Path) (stack : List Path) (o : Obj) : R (List Obj) :=
+def includeHere (env : IncEnv) (fuel : Nat) (refdir : Path) (stack : List Path) (o : Obj) : R (List Obj) :=
   if o.meta.disabled then .ok [o] else
   match o with
   | .defn m ws =>
@@ -25,40 +55,50 @@ def includeHere (fs : FS) (fuel : Nat) (refdir : Path) (stack : List Path) (o : 
         else
           match fuel with
           | 0 => .error .outOfFuel
-          | f + 1 => expandFile fs (f + 1) (resolvePath refdir (ws.getD 1 default).value) stack
-      else if ty == "scope".toList then .error (.unsupported "include scope")
+          | f + 1 => expandFile env (f + 1) (resolvePath refdir (ws.getD 1 default).value) stack
+      else if ty == "scope".toList then
+        if ws.length > 3 then .error (.runtime "include_scope_arguments" m.line)
+        else includeScope env fuel stack (ws.getD 1 default).value
+              (if ws.length == 2 then none else some (ws.getD 2 default).value) m.line
       else .error (.runtime "unknown_include_type" m.line)
   | .scope m kids =>
-    (processIncludes fs fuel refdir stack kids).map (fun ks => [Obj.scope { m with tmpl := 0 } ks])
+    (processIncludes env fuel refdir stack kids).map (fun ks => [Obj.scope { m with tmpl := 0 } ks])
 
-theorem processIncludes_nil (fs : FS) (fuel : Nat) (refdir : Path) (stack : List Path) :
-    processIncludes fs fuel refdir stack [] = .ok [] := by
+theorem processIncludes_nil (env : IncEnv) (fuel : Nat) (refdir : Path) (stack : List Path) :
+    processIncludes env fuel refdir stack [] = .ok [] := by
   rw [processIncludes.eq_def]
 
-theorem processIncludes_cons (fs : FS) (fuel : Nat) (refdir : Path) (stack : List Path)
+theorem processIncludes_cons (env : IncEnv) (fuel : Nat) (refdir : Path) (stack : List Path)
     (o : Obj) (rest : List Obj) :
-    processIncludes fs fuel refdir stack (o :: rest) =
-      match includeHere fs fuel refdir stack o with
+    processIncludes env fuel refdir stack (o :: rest) =
+      match includeHere env fuel refdir stack o with
       | .error e => .error e
-      | .ok l => (processIncludes fs fuel refdir stack rest).map (fun r => l ++ r) := by
+      | .ok l => (processIncludes env fuel refdir stack rest).map (fun r => l ++ r) := by
   rw [processIncludes.eq_def]
-  rfl
+  cases o with
+  | scope m kids => rfl
+  | defn m ws =>
+    by_cases h2 : (ws.length == 2) = true
+    · simp only [includeHere, includeScope, h2, selectSub]
+      rfl
+    · simp only [includeHere, includeScope, h2, selectSub]
+      rfl
 
-theorem expandFile_zero (fs : FS) (path : Path) (stack : List Path) :
-    expandFile fs 0 path stack = .error .outOfFuel := by
+theorem expandFile_zero (env : IncEnv) (path : Path) (stack : List Path) :
+    expandFile env 0 path stack = .error .outOfFuel := by
   rw [expandFile.eq_def]
 
-theorem expandFile_succ (fs : FS) (fuel : Nat) (path : Path) (stack : List Path) :
-    expandFile fs (fuel + 1) path stack =
-      match fs.read path with
+theorem expandFile_succ (env : IncEnv) (fuel : Nat) (path : Path) (stack : List Path) :
+    expandFile env (fuel + 1) path stack =
+      match env.fs.read path with
       | none => .error (.stray "FileNotFoundError" "open")
       | some text =>
         match parseObjs text with
         | .error e => .error e
         | .ok objs =>
           if stack.contains path then .error (.runtime "include_cycle" none)
-          else processIncludes fs fuel path.dropLast (stack ++ [path]) objs :=
-  expandFile.eq_2 fs path stack fuel
+          else processIncludes env fuel path.dropLast (stack ++ [path]) objs :=
+  expandFile.eq_2 env path stack fuel
 
 theorem Except.map_eq_error {ε α β : Type} (f : α → β) (x : Except ε α) (e : ε) :
     Except.map f x = .error e ↔ x = .error e := by
@@ -70,21 +110,21 @@ theorem Except.map_eq_ok {ε α β : Type} (f : α → β) (x : Except ε α) (b
 
 /-! ### 1. a file already being expanded is refused -/
 
-theorem cycle_refused (fs : FS) (fuel : Nat) (path : Path) (stack : List Path) (text : Str)
-    (objs : List Obj) (hin : path ∈ stack) (hread : fs.read path = some text)
+theorem cycle_refused (env : IncEnv) (fuel : Nat) (path : Path) (stack : List Path) (text : Str)
+    (objs : List Obj) (hin : path ∈ stack) (hread : env.fs.read path = some text)
     (hparse : parseObjs text = .ok objs) :
-    expandFile fs (fuel + 1) path stack = .error (.runtime "include_cycle" none) := by
+    expandFile env (fuel + 1) path stack = .error (.runtime "include_cycle" none) := by
   have hc : stack.contains path = true := List.contains_iff_mem.mpr hin
   rw [expandFile_succ]
   simp only [hread, hparse, hc, ↓reduceIte]
 
 /-- a file that is not being expanded is processed with itself pushed on the stack and its own
     directory as reference directory -/
-theorem expandFile_fresh (fs : FS) (fuel : Nat) (path : Path) (stack : List Path) (text : Str)
-    (objs : List Obj) (hin : path ∉ stack) (hread : fs.read path = some text)
+theorem expandFile_fresh (env : IncEnv) (fuel : Nat) (path : Path) (stack : List Path) (text : Str)
+    (objs : List Obj) (hin : path ∉ stack) (hread : env.fs.read path = some text)
     (hparse : parseObjs text = .ok objs) :
-    expandFile fs (fuel + 1) path stack
-      = processIncludes fs fuel path.dropLast (stack ++ [path]) objs := by
+    expandFile env (fuel + 1) path stack
+      = processIncludes env fuel path.dropLast (stack ++ [path]) objs := by
   rw [expandFile_succ]
   simp [hread, hparse, hin]
 
@@ -144,104 +184,440 @@ theorem stack_length_le_numFiles (fs : FS) (stack : List Path) (hnd : stack.Nodu
 /-- no file of `fs` exhausts the fuel of the *parser* (`parseObjs` uses its own fuel) -/
 def ParseFuelOK (fs : FS) : Prop := ∀ pt ∈ fs, parseObjs pt.2 ≠ .error .outOfFuel
 
-/-- if `expandFile` cannot run out of fuel at this fuel and stack, neither can `processIncludes` -/
-theorem processIncludes_fuel_of_expandFile (fs : FS) (fuel : Nat) (refdir : Path) (stack : List Path)
-    (hP : ∀ path, expandFile fs fuel path stack ≠ .error .outOfFuel) (objs : List Obj) :
-    processIncludes fs fuel refdir stack objs ≠ .error .outOfFuel := by
+/-! #### the statements `processIncludes` follows -/
+
+/-- the file name of a well-formed enabled `include file <name>` statement -/
+def includeTarget : Obj → Option Str
+  | .defn m [w1, w2] =>
+    if !m.disabled && m.name == "include".toList && !containsDollar [w1, w2]
+        && lower w1.value == "file".toList then some w2.value else none
+  | _ => none
+
+/-- the python path and the optional sub-path of a well-formed enabled
+    `include scope <python path> [<phil path>]` statement -/
+def scopeTarget : Obj → Option (Str × Option Str)
+  | .defn m (w1 :: w2 :: tl) =>
+    if !m.disabled && m.name == "include".toList && !containsDollar (w1 :: w2 :: tl)
+        && lower w1.value == "scope".toList && tl.length ≤ 1 then
+      some (w2.value, tl.head?.map (·.value)) else none
+  | _ => none
+
+mutual
+/-- the names of the include statements that `processIncludes` follows: well-formed enabled
+    `include file` statements at top level or inside enabled scopes -/
+def includeTargetsObj : Obj → List Str
+  | .defn m ws => (includeTarget (.defn m ws)).toList
+  | .scope m kids => if m.disabled then [] else includeTargets kids
+def includeTargets : List Obj → List Str
+  | [] => []
+  | o :: os => includeTargetsObj o ++ includeTargets os
+end
+
+mutual
+/-- the python paths of the `include scope` statements that `processIncludes` follows (well-formed,
+    enabled, at top level or inside enabled scopes) -/
+def scopeTargetsObj : Obj → List Str
+  | .defn m ws => ((scopeTarget (.defn m ws)).map (·.1)).toList
+  | .scope m kids => if m.disabled then [] else scopeTargets kids
+def scopeTargets : List Obj → List Str
+  | [] => []
+  | o :: os => scopeTargetsObj o ++ scopeTargets os
+end
+
+/-- **inlining law**: a well-formed include statement contributes exactly the expansion of the
+    file its name resolves to (relative to `refdir`), with the same stack -/
+theorem includeHere_include (env : IncEnv) (f : Nat) (refdir : Path) (stack : List Path) (o : Obj)
+    (name : Str) (h : includeTarget o = some name) :
+    includeHere env (f + 1) refdir stack o = expandFile env (f + 1) (resolvePath refdir name) stack := by
+  unfold includeTarget at h
+  split at h
+  · rename_i m w1 w2
+    split at h
+    · rename_i hc
+      simp only [Bool.and_eq_true, Bool.not_eq_true', beq_iff_eq] at hc
+      obtain ⟨⟨⟨hd, hn⟩, hdol⟩, hty⟩ := hc
+      cases h
+      unfold includeHere
+      simp [Obj.meta, hd, hn, hdol, hty]
+    · cases h
+  · cases h
+
+/-- for every fuel: a well-formed include statement contributes the expansion of its target -/
+theorem includeHere_include' (env : IncEnv) (fuel : Nat) (refdir : Path) (stack : List Path) (o : Obj)
+    (name : Str) (h : includeTarget o = some name) :
+    includeHere env fuel refdir stack o = expandFile env fuel (resolvePath refdir name) stack := by
+  cases fuel with
+  | succ f => exact includeHere_include env f refdir stack o name h
+  | zero =>
+    rw [expandFile_zero]
+    unfold includeTarget at h
+    split at h
+    · rename_i m w1 w2
+      split at h
+      · rename_i hc
+        simp only [Bool.and_eq_true, Bool.not_eq_true', beq_iff_eq] at hc
+        obtain ⟨⟨⟨hd, hn⟩, hdol⟩, hty⟩ := hc
+        unfold includeHere
+        simp [Obj.meta, hd, hn, hdol, hty]
+      · cases h
+    · cases h
+
+theorem scope_ne_file : ("scope".toList == "file".toList) = false := by decide
+
+/-- **splicing law, one object**: a well-formed `include scope p [sub]` statement contributes
+    `includeScope … p sub` — whatever the reference directory of the including list -/
+theorem includeHere_scope (env : IncEnv) (fuel : Nat) (refdir : Path) (stack : List Path) (o : Obj)
+    (p : Str) (sub : Option Str) (h : scopeTarget o = some (p, sub)) :
+    includeHere env fuel refdir stack o = includeScope env fuel stack p sub o.meta.line := by
+  unfold scopeTarget at h
+  split at h
+  · rename_i m w1 w2 tl
+    split at h
+    · rename_i hc
+      simp only [Bool.and_eq_true, Bool.not_eq_true', beq_iff_eq, decide_eq_true_eq] at hc
+      obtain ⟨⟨⟨⟨hd, hn⟩, hdol⟩, hty⟩, hlen⟩ := hc
+      cases h
+      unfold includeHere
+      match tl, hlen, hdol with
+      | [], _, hdol => simp [Obj.meta, hd, hn, hdol, hty, scope_ne_file]
+      | [w3], _, hdol => simp [Obj.meta, hd, hn, hdol, hty, scope_ne_file]
+      | _ :: _ :: _, hlen, _ => simp at hlen
+    · cases h
+  · cases h
+
+abbrev cycleErr : Err := .runtime "include_cycle" none
+
+/-- a definition that is neither a well-formed `include file` nor a well-formed `include scope`
+    statement is kept or refused on the spot: never `outOfFuel`, never the cycle error -/
+theorem includeHere_defn_other (env : IncEnv) (fuel : Nat) (refdir : Path) (stack : List Path)
+    (m : Meta) (ws : List Word) (h : includeTarget (.defn m ws) = none)
+    (hs : scopeTarget (.defn m ws) = none) (e : Err)
+    (he : includeHere env fuel refdir stack (.defn m ws) = .error e) :
+    e ≠ .outOfFuel ∧ e ≠ cycleErr := by
+  unfold includeHere at he
+  simp only [Obj.meta] at he
+  split at he
+  · cases he
+  · rename_i hd
+    split at he
+    · cases he
+    · rename_i hn
+      split at he
+      · cases he; simp [cycleErr]
+      · rename_i hdol
+        split at he
+        · cases he; simp [cycleErr]
+        · rename_i hlen2
+          split at he
+          · rename_i hty
+            split at he
+            · cases he; simp [cycleErr]
+            · rename_i hlen
+              exfalso
+              match ws, hlen with
+              | [], hlen => simp at hlen
+              | [_], hlen => simp at hlen
+              | _ :: _ :: _ :: _, hlen => simp at hlen
+              | [w1, w2], _ =>
+                simp only [List.headD_cons] at hty
+                have hd' : m.disabled = false := by simpa using hd
+                have hn' : (m.name == "include".toList) = true := by simpa using hn
+                have hdol' : containsDollar [w1, w2] = false := by simpa using hdol
+                simp only [includeTarget, hd', hn', hdol', hty] at h
+                simp at h
+          · split at he
+            · rename_i hty
+              split at he
+              · cases he; simp [cycleErr]
+              · rename_i hlen
+                exfalso
+                match ws, hlen, hlen2 with
+                | [], _, hlen2 => simp at hlen2
+                | [_], _, hlen2 => simp at hlen2
+                | w1 :: w2 :: tl, hlen, _ =>
+                  simp only [List.headD_cons] at hty
+                  have hd' : m.disabled = false := by simpa using hd
+                  have hn' : (m.name == "include".toList) = true := by simpa using hn
+                  have hdol' : containsDollar (w1 :: w2 :: tl) = false := by simpa using hdol
+                  have hl : decide (tl.length ≤ 1) = true := by
+                    simp only [List.length_cons] at hlen; simp; omega
+                  simp only [scopeTarget, hd', hn', hdol', hty, hl] at hs
+                  simp at hs
+            · cases he; simp [cycleErr]
+
+/-! #### fuel -/
+
+theorem IncEnv.imported_some_mem {env : IncEnv} {p : Str} {t : Str} (h : env.imported p = some t) :
+    (p, t) ∈ env.imports := by
+  unfold IncEnv.imported at h
+  cases hf : env.imports.find? (·.1 == p) with
+  | none => simp [hf] at h
+  | some pt =>
+    simp [hf] at h
+    have h1 := List.find?_some hf
+    have h2 := List.mem_of_find?_eq_some hf
+    have : pt.1 = p := by simpa using h1
+    have e : pt = (p, t) := by
+      cases pt; simp_all
+    rw [← e]; exact h2
+
+/-- no imported scope exhausts the fuel of the *parser* -/
+def ImportsParseFuelOK (imports : List (Str × Str)) : Prop :=
+  ∀ pt ∈ imports, parseObjs pt.2 ≠ .error .outOfFuel
+
+/-- **imported scopes are ranked**: there is a ranking of the python paths, bounded by the number of
+    imports, that strictly increases along every followed `include scope` statement of an imported
+    scope's text (statements naming an unknown import are not constrained: they end the expansion
+    with `unsupported`).  Without such a ranking imported scopes include each other cyclically and
+    Python itself recurses without bound (there is no cycle detection for scopes).
+    Any strict ranking of the (at most `imports.length`) known names can be compressed below
+    `imports.length`; the position in `env.imports` is one such ranking, see `importsRankedB`. -/
+def ImportsRanked (env : IncEnv) : Prop :=
+  ∃ rank : Str → Nat,
+    (∀ p text, env.imported p = some text → rank p < env.imports.length) ∧
+    (∀ p text src, env.imported p = some text → parseObjs text = .ok src →
+      ∀ q ∈ scopeTargets src, ∀ text', env.imported q = some text' → rank p < rank q)
+
+/-- decidable sufficient condition: every followed `include scope q` in the text of an import names
+    an unknown import or one whose (first) position in `env.imports` is larger -/
+def importsRankedB (env : IncEnv) : Bool :=
+  env.imports.all fun pt =>
+    match parseObjs pt.2 with
+    | .error _ => true
+    | .ok src => (scopeTargets src).all fun q =>
+        !(env.imports.any (·.1 == q)) ||
+          decide (env.imports.findIdx (·.1 == pt.1) < env.imports.findIdx (·.1 == q))
+
+theorem IncEnv.imported_some_any {env : IncEnv} {p : Str} {t : Str} (h : env.imported p = some t) :
+    env.imports.any (·.1 == p) = true := by
+  have := IncEnv.imported_some_mem h
+  exact List.any_eq_true.mpr ⟨(p, t), this, by simp⟩
+
+theorem importsRanked_of_B (env : IncEnv) (h : importsRankedB env = true) : ImportsRanked env := by
+  refine ⟨fun p => env.imports.findIdx (·.1 == p), ?_, ?_⟩
+  · intro p text hp
+    have := IncEnv.imported_some_any hp
+    exact List.findIdx_lt_length_of_exists (by simpa using this)
+  · intro p text src hp hsrc q hq text' hq'
+    unfold importsRankedB at h
+    have h1 := List.all_eq_true.mp h (p, text) (IncEnv.imported_some_mem hp)
+    simp only [hsrc] at h1
+    have h2 := List.all_eq_true.mp h1 q hq
+    have h3 := IncEnv.imported_some_any hq'
+    simp only [h3, Bool.not_true, Bool.false_or, decide_eq_true_eq] at h2
+    exact h2
+
+theorem importsRanked_nil (env : IncEnv) (h : env.imports = []) : ImportsRanked env := by
+  refine ⟨fun _ => 0, ?_, ?_⟩
+  · intro p text hp
+    have := IncEnv.imported_some_mem hp
+    rw [h] at this; cases this
+  · intro p text src hp
+    have := IncEnv.imported_some_mem hp
+    rw [h] at this; cases this
+
+theorem selectSub_ne_outOfFuel (expanded : List Obj) (sub : Option Str) (line : Option Nat) :
+    selectSub expanded sub line ≠ .error .outOfFuel := by
+  cases sub with
+  | none => simp [selectSub]
+  | some q =>
+    simp only [selectSub]
+    split
+    · simp
+    · split <;> simp
+
+theorem selectSub_ne_cycleErr (expanded : List Obj) (sub : Option Str) (line : Option Nat) :
+    selectSub expanded sub line ≠ .error cycleErr := by
+  cases sub with
+  | none => simp [selectSub]
+  | some q =>
+    simp only [selectSub]
+    split
+    · simp [cycleErr]
+    · split <;> simp [cycleErr]
+
+/-- one level of the fuel argument: if `expandFile` cannot run out of fuel at this fuel and stack,
+    and the imported scopes named by the followed `include scope` statements (all of which satisfy
+    `A`) cannot either with one unit less, then `processIncludes` cannot -/
+theorem processIncludes_fuel_step (env : IncEnv) (hpi : ImportsParseFuelOK env.imports) (fuel : Nat)
+    (refdir : Path) (stack : List Path) (A : Str → Prop)
+    (hE : ∀ path, expandFile env fuel path stack ≠ .error .outOfFuel)
+    (hS : ∀ p text src f, A p → env.imported p = some text → parseObjs text = .ok src → fuel = f + 1 →
+      processIncludes env f env.cwd stack src ≠ .error .outOfFuel)
+    (objs : List Obj) :
+    (∀ p ∈ scopeTargets objs, A p) →
+    processIncludes env fuel refdir stack objs ≠ .error .outOfFuel := by
   have hfuel : fuel ≠ 0 := by
-    intro h; subst h; exact hP [] (expandFile_zero _ _ _)
+    intro h; subst h; exact hE [] (expandFile_zero _ _ _)
   induction objs using Obj.rec_1
-    (motive_1 := fun o => includeHere fs fuel refdir stack o ≠ .error .outOfFuel) with
+    (motive_1 := fun o => (∀ p ∈ scopeTargetsObj o, A p) →
+      includeHere env fuel refdir stack o ≠ .error .outOfFuel) with
   | defn m ws =>
-    unfold includeHere
-    cases fuel with
-    | zero => exact absurd rfl hfuel
-    | succ f =>
-      have := hP (resolvePath refdir (ws.getD 1 default).value)
-      simp only
-      split
-      · simp
-      · split <;> (try split) <;> (try split) <;> (try split) <;> (try split) <;> (try split) <;> simp_all
+    rename_i hA
+    cases ht : includeTarget (.defn m ws) with
+    | some n =>
+      rw [includeHere_include' env fuel refdir stack _ n ht]
+      exact hE _
+    | none =>
+      cases hst : scopeTarget (.defn m ws) with
+      | none =>
+        intro he
+        exact (includeHere_defn_other env fuel refdir stack m ws ht hst _ he).1 rfl
+      | some ps =>
+        obtain ⟨p, sub⟩ := ps
+        rw [includeHere_scope env fuel refdir stack _ p sub hst]
+        have hAp : A p := hA p (by simp [scopeTargetsObj, hst])
+        unfold includeScope
+        cases hi : env.imported p with
+        | none => simp
+        | some text =>
+          simp only
+          cases hp : parseObjs text with
+          | error e =>
+            simp only
+            intro h
+            have := hpi _ (IncEnv.imported_some_mem hi)
+            simp only at this
+            rw [hp] at this
+            exact this h
+          | ok src =>
+            simp only
+            cases fuel with
+            | zero => exact absurd rfl hfuel
+            | succ f =>
+              simp only
+              have := hS p text src f hAp hi hp rfl
+              cases hx : processIncludes env f env.cwd stack src with
+              | error e =>
+                simp only
+                rw [hx] at this
+                exact this
+              | ok expanded =>
+                simp only
+                exact selectSub_ne_outOfFuel _ _ _
   | scope m kids ih =>
+    rename_i hA
     unfold includeHere
     split
     · simp
-    · simp only
+    · rename_i hd
+      simp only [Obj.meta] at hd
+      simp only
       intro h
-      exact ih ((Except.map_eq_error _ _ _).mp h)
-  | nil => rw [processIncludes_nil]; simp
+      refine ih ?_ ((Except.map_eq_error _ _ _).mp h)
+      intro p hp
+      exact hA p (by simp [scopeTargetsObj, hd, hp])
+  | nil => intro _; rw [processIncludes_nil]; simp
   | cons o rest iho ihr =>
+    intro hA
     rw [processIncludes_cons]
-    cases hh : includeHere fs fuel refdir stack o with
+    have hA1 : ∀ p ∈ scopeTargetsObj o, A p := fun p hp => hA p (by simp [scopeTargets, hp])
+    have hA2 : ∀ p ∈ scopeTargets rest, A p := fun p hp => hA p (by simp [scopeTargets, hp])
+    cases hh : includeHere env fuel refdir stack o with
     | error e =>
       simp only
       intro h
-      rw [hh] at iho
-      exact iho h
+      have := iho hA1
+      rw [hh] at this
+      exact this h
     | ok l =>
       simp only
       intro h
-      exact ihr ((Except.map_eq_error _ _ _).mp h)
+      exact ihr hA2 ((Except.map_eq_error _ _ _).mp h)
 
-/-- **fuel adequacy for `expandFile`** -/
-theorem expandFile_ne_outOfFuel (fs : FS) (hpf : ParseFuelOK fs) :
-    ∀ (fuel : Nat) (path : Path) (stack : List Path), stack.Nodup → (∀ p ∈ stack, p ∈ fs.keys) →
-      fs.numFiles + 1 ≤ fuel + stack.length →
-      expandFile fs fuel path stack ≠ .error .outOfFuel := by
+/-- **fuel adequacy**, both functions at once.  `M = imports.length + 1`; entering a file costs one
+    unit of fuel, pushes one file on the (duplicate-free) stack and resets the rank bound `k` to 0;
+    entering an imported scope of rank `r ≥ k` costs one unit and raises the bound to `r + 1`; so
+    `fuel + |stack| * M + k` never decreases, and at fuel 0 it would exceed its maximum. -/
+theorem fuel_adequate (env : IncEnv) (hpf : ParseFuelOK env.fs) (hpi : ImportsParseFuelOK env.imports)
+    (rank : Str → Nat)
+    (hr1 : ∀ p text, env.imported p = some text → rank p < env.imports.length)
+    (hr2 : ∀ p text src, env.imported p = some text → parseObjs text = .ok src →
+      ∀ q ∈ scopeTargets src, ∀ text', env.imported q = some text' → rank p < rank q) :
+    ∀ (fuel : Nat),
+      (∀ (path : Path) (stack : List Path), stack.Nodup → (∀ p ∈ stack, p ∈ env.fs.keys) →
+        env.fs.numFiles * (env.imports.length + 1) + 1 ≤ fuel + stack.length * (env.imports.length + 1) →
+        expandFile env fuel path stack ≠ .error .outOfFuel) ∧
+      (∀ (refdir : Path) (stack : List Path) (objs : List Obj) (k : Nat), stack.Nodup →
+        (∀ p ∈ stack, p ∈ env.fs.keys) → k ≤ env.imports.length →
+        (∀ p ∈ scopeTargets objs, ∀ text, env.imported p = some text → k ≤ rank p) →
+        env.fs.numFiles * (env.imports.length + 1) + env.imports.length + 1
+          ≤ fuel + stack.length * (env.imports.length + 1) + k →
+        processIncludes env fuel refdir stack objs ≠ .error .outOfFuel) := by
   intro fuel
   induction fuel with
   | zero =>
-    intro path stack hnd hsub hb
-    have := stack_length_le_numFiles fs stack hnd hsub
-    omega
+    constructor
+    · intro path stack hnd hsub hb
+      have h1 := stack_length_le_numFiles env.fs stack hnd hsub
+      have h2 := Nat.mul_le_mul_right (env.imports.length + 1) h1
+      omega
+    · intro refdir stack objs k hnd hsub hk hA hb
+      have h1 := stack_length_le_numFiles env.fs stack hnd hsub
+      have h2 := Nat.mul_le_mul_right (env.imports.length + 1) h1
+      omega
   | succ f ih =>
-    intro path stack hnd hsub hb
-    rw [expandFile_succ]
-    cases hr : fs.read path with
-    | none => simp
-    | some text =>
-      simp only
-      cases hp : parseObjs text with
-      | error e =>
+    have hE : ∀ (path : Path) (stack : List Path), stack.Nodup → (∀ p ∈ stack, p ∈ env.fs.keys) →
+        env.fs.numFiles * (env.imports.length + 1) + 1
+          ≤ f + 1 + stack.length * (env.imports.length + 1) →
+        expandFile env (f + 1) path stack ≠ .error .outOfFuel := by
+      intro path stack hnd hsub hb
+      rw [expandFile_succ]
+      cases hr : env.fs.read path with
+      | none => simp
+      | some text =>
         simp only
-        intro h
-        have := hpf _ (FS.read_some_mem hr)
-        simp only at this
-        rw [hp] at this
-        exact this h
-      | ok objs =>
-        simp only
-        cases hc : stack.contains path with
-        | true => simp
-        | false =>
-          simp only [Bool.false_eq_true, ↓reduceIte]
-          have hnin : path ∉ stack := fun h => by
-            have := List.contains_iff_mem.mpr h
-            rw [hc] at this; cases this
-          apply processIncludes_fuel_of_expandFile
-          intro p
-          apply ih
-          · rw [List.nodup_append]
-            refine ⟨hnd, by simp, ?_⟩
-            intro a ha b hb' e
-            simp at hb'
-            subst hb'
-            exact hnin (e ▸ ha)
-          · intro q hq
-            rcases List.mem_append.mp hq with h | h
-            · exact hsub q h
-            · simp at h; subst h; exact FS.read_some_key hr
-          · simp only [List.length_append, List.length_cons, List.length_nil]
-            omega
+        cases hp : parseObjs text with
+        | error e =>
+          simp only
+          intro h
+          have := hpf _ (FS.read_some_mem hr)
+          simp only at this
+          rw [hp] at this
+          exact this h
+        | ok objs =>
+          simp only
+          cases hc : stack.contains path with
+          | true => simp
+          | false =>
+            simp only [Bool.false_eq_true, ↓reduceIte]
+            have hnin : path ∉ stack := fun h => by
+              have := List.contains_iff_mem.mpr h
+              rw [hc] at this; cases this
+            apply ih.2 _ _ _ 0
+            · rw [List.nodup_append]
+              refine ⟨hnd, by simp, ?_⟩
+              intro a ha b hb' e
+              simp at hb'
+              subst hb'
+              exact hnin (e ▸ ha)
+            · intro q hq
+              rcases List.mem_append.mp hq with h | h
+              · exact hsub q h
+              · simp at h; subst h; exact FS.read_some_key hr
+            · omega
+            · intro p _ text _; omega
+            · simp only [List.length_append, List.length_cons, List.length_nil, Nat.add_mul]
+              omega
+    refine ⟨hE, ?_⟩
+    intro refdir stack objs k hnd hsub hk hA hb
+    apply processIncludes_fuel_step env hpi (f + 1) refdir stack
+      (fun p => ∀ text, env.imported p = some text → k ≤ rank p)
+    · intro path
+      exact hE path stack hnd hsub (by omega)
+    · intro p text src f' hAp hi hp hf
+      have hf' : f' = f := by omega
+      subst hf'
+      have hkp := hAp text hi
+      have hrp := hr1 p text hi
+      apply ih.2 env.cwd stack src (rank p + 1) hnd hsub (by omega)
+      · intro q hq text' hq'
+        have := hr2 p text src hi hp q hq text' hq'
+        omega
+      · omega
+    · exact hA
 
-/-- **fuel adequacy for `processIncludes`** (same bound: the step into a file costs one unit of
-    fuel and pushes one file on the stack) -/
-theorem processIncludes_ne_outOfFuel (fs : FS) (hpf : ParseFuelOK fs) (fuel : Nat) (refdir : Path)
-    (stack : List Path) (objs : List Obj) (hnd : stack.Nodup) (hsub : ∀ p ∈ stack, p ∈ fs.keys)
-    (hb : fs.numFiles + 1 ≤ fuel + stack.length) :
-    processIncludes fs fuel refdir stack objs ≠ .error .outOfFuel :=
-  processIncludes_fuel_of_expandFile fs fuel refdir stack
-    (fun p => expandFile_ne_outOfFuel fs hpf fuel p stack hnd hsub hb) objs
+
 
 theorem length_eraseDups_le {α : Type} [BEq α] [LawfulBEq α] (l : List α) :
     l.eraseDups.length ≤ l.length := by
@@ -268,16 +644,79 @@ theorem FS.numFiles_le_length (fs : FS) : fs.numFiles ≤ fs.length := by
   have := length_eraseDups_le (fs.map (·.1))
   simpa using this
 
+/-- **fuel adequacy for `expandFile`** -/
+theorem expandFile_ne_outOfFuel (env : IncEnv) (hpf : ParseFuelOK env.fs)
+    (hpi : ImportsParseFuelOK env.imports) (hrk : ImportsRanked env)
+    (fuel : Nat) (path : Path) (stack : List Path) (hnd : stack.Nodup)
+    (hsub : ∀ p ∈ stack, p ∈ env.fs.keys)
+    (hb : env.fs.numFiles * (env.imports.length + 1) + 1
+            ≤ fuel + stack.length * (env.imports.length + 1)) :
+    expandFile env fuel path stack ≠ .error .outOfFuel := by
+  obtain ⟨rank, hr1, hr2⟩ := hrk
+  exact (fuel_adequate env hpf hpi rank hr1 hr2 fuel).1 path stack hnd hsub hb
+
+/-- **fuel adequacy for `processIncludes`** on a list all of whose followed `include scope`
+    statements name imports of rank ≥ `k` (`k = 0`: no condition — e.g. the objects of a file) -/
+theorem processIncludes_ne_outOfFuel (env : IncEnv) (hpf : ParseFuelOK env.fs)
+    (hpi : ImportsParseFuelOK env.imports) (rank : Str → Nat)
+    (hr1 : ∀ p text, env.imported p = some text → rank p < env.imports.length)
+    (hr2 : ∀ p text src, env.imported p = some text → parseObjs text = .ok src →
+      ∀ q ∈ scopeTargets src, ∀ text', env.imported q = some text' → rank p < rank q)
+    (fuel : Nat) (refdir : Path) (stack : List Path) (objs : List Obj) (k : Nat) (hnd : stack.Nodup)
+    (hsub : ∀ p ∈ stack, p ∈ env.fs.keys) (hk : k ≤ env.imports.length)
+    (hA : ∀ p ∈ scopeTargets objs, ∀ text, env.imported p = some text → k ≤ rank p)
+    (hb : env.fs.numFiles * (env.imports.length + 1) + env.imports.length + 1
+            ≤ fuel + stack.length * (env.imports.length + 1) + k) :
+    processIncludes env fuel refdir stack objs ≠ .error .outOfFuel :=
+  (fuel_adequate env hpf hpi rank hr1 hr2 fuel).2 refdir stack objs k hnd hsub hk hA hb
+
 /-- `expand` never runs out of include fuel -/
-theorem expand_ne_outOfFuel (fs : FS) (hpf : ParseFuelOK fs) (root : Path) :
-    expand fs root ≠ .error .outOfFuel := by
+theorem expand_ne_outOfFuel (env : IncEnv) (hpf : ParseFuelOK env.fs)
+    (hpi : ImportsParseFuelOK env.imports) (hrk : ImportsRanked env) (root : Path) :
+    expand env root ≠ .error .outOfFuel := by
   unfold expand
-  apply expandFile_ne_outOfFuel fs hpf
+  apply expandFile_ne_outOfFuel env hpf hpi hrk
   · exact List.nodup_nil
   · intro p hp; cases hp
-  · have := FS.numFiles_le_length fs
-    simp only [List.length_nil]
+  · have h1 := FS.numFiles_le_length env.fs
+    have h2 := Nat.mul_le_mul_right (env.imports.length + 1) h1
+    simp only [List.length_nil, Nat.add_mul]
     omega
+
+/-! #### the file-only case (`env.imports = []`): the statements before imported scopes existed -/
+
+theorem importsParseFuelOK_nil : ImportsParseFuelOK [] := by
+  intro pt h; cases h
+
+theorem expandFile_ne_outOfFuel_files (env : IncEnv) (hi : env.imports = []) (hpf : ParseFuelOK env.fs)
+    (fuel : Nat) (path : Path) (stack : List Path) (hnd : stack.Nodup)
+    (hsub : ∀ p ∈ stack, p ∈ env.fs.keys) (hb : env.fs.numFiles + 1 ≤ fuel + stack.length) :
+    expandFile env fuel path stack ≠ .error .outOfFuel := by
+  apply expandFile_ne_outOfFuel env hpf (hi ▸ importsParseFuelOK_nil) (importsRanked_nil env hi)
+    fuel path stack hnd hsub
+  rw [hi]
+  simp only [List.length_nil, Nat.zero_add, Nat.mul_one]
+  exact hb
+
+theorem processIncludes_ne_outOfFuel_files (env : IncEnv) (hi : env.imports = [])
+    (hpf : ParseFuelOK env.fs) (fuel : Nat) (refdir : Path)
+    (stack : List Path) (objs : List Obj) (hnd : stack.Nodup) (hsub : ∀ p ∈ stack, p ∈ env.fs.keys)
+    (hb : env.fs.numFiles + 1 ≤ fuel + stack.length) :
+    processIncludes env fuel refdir stack objs ≠ .error .outOfFuel := by
+  have hnone : ∀ p text, env.imported p = some text → False := by
+    intro p text hp
+    have := IncEnv.imported_some_mem hp
+    rw [hi] at this; cases this
+  apply processIncludes_ne_outOfFuel env hpf (hi ▸ importsParseFuelOK_nil) (fun _ => 0)
+    (fun p text hp => (hnone p text hp).elim) (fun p text src hp => (hnone p text hp).elim)
+    fuel refdir stack objs 0 hnd hsub (Nat.zero_le _) (fun _ _ _ _ => Nat.le_refl _)
+  rw [hi]
+  simp only [List.length_nil, Nat.zero_add, Nat.mul_one, Nat.add_zero]
+  exact hb
+
+theorem expand_ne_outOfFuel_files (env : IncEnv) (hi : env.imports = []) (hpf : ParseFuelOK env.fs)
+    (root : Path) : expand env root ≠ .error .outOfFuel :=
+  expand_ne_outOfFuel env hpf (hi ▸ importsParseFuelOK_nil) (importsRanked_nil env hi) root
 
 /-! ### 3. include-free object lists are kept (up to `tmpl` of enabled scopes) -/
 
@@ -336,12 +775,12 @@ theorem resetTmpl_id (objs : List Obj) : AllTmplZero objs = true → resetTmpl o
     simp only [AllTmplZero, Bool.and_eq_true] at h
     simp [resetTmpl, iho h.1, ihr h.2]
 
-theorem no_include_identity (fs : FS) (fuel : Nat) (refdir : Path) (stack : List Path)
+theorem no_include_identity (env : IncEnv) (fuel : Nat) (refdir : Path) (stack : List Path)
     (objs : List Obj) :
-    NoInclude objs = true → processIncludes fs fuel refdir stack objs = .ok (resetTmpl objs) := by
+    NoInclude objs = true → processIncludes env fuel refdir stack objs = .ok (resetTmpl objs) := by
   induction objs using Obj.rec_1
     (motive_1 := fun o => NoIncludeObj o = true →
-      includeHere fs fuel refdir stack o = .ok [resetTmplObj o]) with
+      includeHere env fuel refdir stack o = .ok [resetTmplObj o]) with
   | defn m ws =>
     rename_i h
     simp only [NoIncludeObj, Bool.or_eq_true] at h
@@ -368,96 +807,69 @@ theorem no_include_identity (fs : FS) (fuel : Nat) (refdir : Path) (stack : List
     rw [processIncludes_cons, iho h.1, ihr h.2]
     rfl
 
-theorem no_include_identity' (fs : FS) (fuel : Nat) (refdir : Path) (stack : List Path)
+theorem no_include_identity' (env : IncEnv) (fuel : Nat) (refdir : Path) (stack : List Path)
     (objs : List Obj) (hn : NoInclude objs = true) (hz : AllTmplZero objs = true) :
-    processIncludes fs fuel refdir stack objs = .ok objs := by
-  rw [no_include_identity fs fuel refdir stack objs hn, resetTmpl_id objs hz]
+    processIncludes env fuel refdir stack objs = .ok objs := by
+  rw [no_include_identity env fuel refdir stack objs hn, resetTmpl_id objs hz]
 
 /-- processing distributes over concatenation: textual inlining is compositional -/
-theorem processIncludes_append (fs : FS) (fuel : Nat) (refdir : Path) (stack : List Path)
+theorem processIncludes_append (env : IncEnv) (fuel : Nat) (refdir : Path) (stack : List Path)
     (a b : List Obj) :
-    processIncludes fs fuel refdir stack (a ++ b) =
-      match processIncludes fs fuel refdir stack a with
+    processIncludes env fuel refdir stack (a ++ b) =
+      match processIncludes env fuel refdir stack a with
       | .error e => .error e
-      | .ok l => (processIncludes fs fuel refdir stack b).map (fun r => l ++ r) := by
+      | .ok l => (processIncludes env fuel refdir stack b).map (fun r => l ++ r) := by
   induction a with
   | nil =>
     rw [processIncludes_nil]
     simp only [List.nil_append]
-    cases processIncludes fs fuel refdir stack b <;> simp [Except.map]
+    cases processIncludes env fuel refdir stack b <;> simp [Except.map]
   | cons o rest ih =>
     simp only [List.cons_append]
     rw [processIncludes_cons, processIncludes_cons, ih]
-    cases includeHere fs fuel refdir stack o with
+    cases includeHere env fuel refdir stack o with
     | error e => rfl
     | ok l =>
       simp only
-      cases processIncludes fs fuel refdir stack rest with
+      cases processIncludes env fuel refdir stack rest with
       | error e => rfl
       | ok l2 =>
-        cases processIncludes fs fuel refdir stack b with
+        cases processIncludes env fuel refdir stack b with
         | error e => rfl
         | ok l3 => simp [Except.map]
 
 /-! ### the include statement -/
 
-/-- the file name of a well-formed enabled `include file <name>` statement -/
-def includeTarget : Obj → Option Str
-  | .defn m [w1, w2] =>
-    if !m.disabled && m.name == "include".toList && !containsDollar [w1, w2]
-        && lower w1.value == "file".toList then some w2.value else none
-  | _ => none
-
-/-- **inlining law**: a well-formed include statement contributes exactly the expansion of the
-    file its name resolves to (relative to `refdir`), with the same stack -/
-theorem includeHere_include (fs : FS) (f : Nat) (refdir : Path) (stack : List Path) (o : Obj)
-    (name : Str) (h : includeTarget o = some name) :
-    includeHere fs (f + 1) refdir stack o = expandFile fs (f + 1) (resolvePath refdir name) stack := by
-  unfold includeTarget at h
-  split at h
-  · rename_i m w1 w2
-    split at h
-    · rename_i hc
-      simp only [Bool.and_eq_true, Bool.not_eq_true', beq_iff_eq] at hc
-      obtain ⟨⟨⟨hd, hn⟩, hdol⟩, hty⟩ := hc
-      cases h
-      unfold includeHere
-      simp [Obj.meta, hd, hn, hdol, hty]
-    · cases h
-  · cases h
-
-theorem processIncludes_include_cons (fs : FS) (f : Nat) (refdir : Path) (stack : List Path) (o : Obj)
+theorem processIncludes_include_cons (env : IncEnv) (f : Nat) (refdir : Path) (stack : List Path) (o : Obj)
     (rest : List Obj) (name : Str) (h : includeTarget o = some name) :
-    processIncludes fs (f + 1) refdir stack (o :: rest) =
-      match expandFile fs (f + 1) (resolvePath refdir name) stack with
+    processIncludes env (f + 1) refdir stack (o :: rest) =
+      match expandFile env (f + 1) (resolvePath refdir name) stack with
       | .error e => .error e
-      | .ok l => (processIncludes fs (f + 1) refdir stack rest).map (fun r => l ++ r) := by
-  rw [processIncludes_cons, includeHere_include fs f refdir stack o name h]
+      | .ok l => (processIncludes env (f + 1) refdir stack rest).map (fun r => l ++ r) := by
+  rw [processIncludes_cons, includeHere_include env f refdir stack o name h]
 
 /-! ### 4. the diamond -/
 
-theorem diamond_ok (fs : FS) (r l : Path) (tr tl : Str) (i1 i2 : Obj) (n1 n2 : Str)
+theorem diamond_ok (env : IncEnv) (r l : Path) (tr tl : Str) (i1 i2 : Obj) (n1 n2 : Str)
     (objsL : List Obj)
-    (hr : fs.read r = some tr) (hpr : parseObjs tr = .ok [i1, i2])
+    (hr : env.fs.read r = some tr) (hpr : parseObjs tr = .ok [i1, i2])
     (h1 : includeTarget i1 = some n1) (h2 : includeTarget i2 = some n2)
     (hn1 : resolvePath r.dropLast n1 = l) (hn2 : resolvePath r.dropLast n2 = l)
-    (hl : fs.read l = some tl) (hpl : parseObjs tl = .ok objsL)
+    (hl : env.fs.read l = some tl) (hpl : parseObjs tl = .ok objsL)
     (hni : NoInclude objsL = true) (hne : l ≠ r) :
-    expand fs r = .ok (resetTmpl objsL ++ resetTmpl objsL) := by
+    expand env r = .ok (resetTmpl objsL ++ resetTmpl objsL) := by
   unfold expand
-  have hlen : fs.length ≠ 0 := by
-    intro h
-    have : fs = [] := List.eq_nil_of_length_eq_zero h
-    subst this
-    simp [FS.read] at hr
-  obtain ⟨f, hf⟩ : ∃ f, fs.length = f + 1 := ⟨fs.length - 1, by omega⟩
-  rw [hf, expandFile_fresh fs (f + 1) r [] tr [i1, i2] (by simp) hr hpr]
-  have hleaf : expandFile fs (f + 1) l ([] ++ [r]) = .ok (resetTmpl objsL) := by
-    rw [expandFile_fresh fs f l ([] ++ [r]) tl objsL (by simpa using hne) hl hpl]
-    exact no_include_identity fs f _ _ objsL hni
-  rw [processIncludes_include_cons fs f _ _ i1 [i2] n1 h1, hn1, hleaf]
+  have hpos : 0 < (env.fs.length + 1) * (env.imports.length + 1) :=
+    Nat.mul_pos (Nat.succ_pos _) (Nat.succ_pos _)
+  obtain ⟨f, hf⟩ : ∃ f, (env.fs.length + 1) * (env.imports.length + 1) + 1 = f + 1 + 1 :=
+    ⟨(env.fs.length + 1) * (env.imports.length + 1) - 1, by omega⟩
+  rw [hf, expandFile_fresh env (f + 1) r [] tr [i1, i2] (by simp) hr hpr]
+  have hleaf : expandFile env (f + 1) l ([] ++ [r]) = .ok (resetTmpl objsL) := by
+    rw [expandFile_fresh env f l ([] ++ [r]) tl objsL (by simpa using hne) hl hpl]
+    exact no_include_identity env f _ _ objsL hni
+  rw [processIncludes_include_cons env f _ _ i1 [i2] n1 h1, hn1, hleaf]
   simp only
-  rw [processIncludes_include_cons fs f _ _ i2 [] n2 h2, hn2, hleaf]
+  rw [processIncludes_include_cons env f _ _ i2 [] n2 h2, hn2, hleaf]
   simp only
   rw [processIncludes_nil]
   simp [Except.map]
@@ -588,88 +1000,100 @@ theorem resolvePath_rel_norm (refdir : Path) (name : Str) (h : name.take 1 ≠ [
 
 /-! ### 6. the cycle error and the include graph -/
 
-/-- for every fuel: a well-formed include statement contributes the expansion of its target -/
-theorem includeHere_include' (fs : FS) (fuel : Nat) (refdir : Path) (stack : List Path) (o : Obj)
-    (name : Str) (h : includeTarget o = some name) :
-    includeHere fs fuel refdir stack o = expandFile fs fuel (resolvePath refdir name) stack := by
-  cases fuel with
-  | succ f => exact includeHere_include fs f refdir stack o name h
-  | zero =>
-    rw [expandFile_zero]
-    unfold includeTarget at h
-    split at h
-    · rename_i m w1 w2
-      split at h
-      · rename_i hc
-        simp only [Bool.and_eq_true, Bool.not_eq_true', beq_iff_eq] at hc
-        obtain ⟨⟨⟨hd, hn⟩, hdol⟩, hty⟩ := hc
-        unfold includeHere
-        simp [Obj.meta, hd, hn, hdol, hty]
-      · cases h
-    · cases h
+/-- the imported scope `q` is where a cycle error comes from: its text fails to parse with that very
+    error, or processing its includes (one unit of fuel less, reference directory `env.cwd`, the same
+    stack) ends with it -/
+def ScopeCycleSrc (env : IncEnv) (fuel : Nat) (stack : List Path) (q : Str) : Prop :=
+  ∃ text, env.imported q = some text ∧
+    (parseObjs text = .error cycleErr ∨
+      ∃ src f, parseObjs text = .ok src ∧ fuel = f + 1 ∧
+        processIncludes env f env.cwd stack src = .error cycleErr)
 
-abbrev cycleErr : Err := .runtime "include_cycle" none
+theorem includeScope_cycle (env : IncEnv) (fuel : Nat) (stack : List Path) (p : Str) (sub : Option Str)
+    (line : Option Nat) (h : includeScope env fuel stack p sub line = .error cycleErr) :
+    ScopeCycleSrc env fuel stack p := by
+  unfold includeScope at h
+  cases hi : env.imported p with
+  | none => rw [hi] at h; cases h
+  | some text =>
+    rw [hi] at h
+    simp only at h
+    cases hp : parseObjs text with
+    | error e =>
+      rw [hp] at h
+      simp only at h
+      cases h
+      exact ⟨text, hi, .inl hp⟩
+    | ok src =>
+      rw [hp] at h
+      simp only at h
+      cases fuel with
+      | zero => cases h
+      | succ f =>
+        simp only at h
+        cases hx : processIncludes env f env.cwd stack src with
+        | error e =>
+          rw [hx] at h
+          simp only at h
+          cases h
+          exact ⟨text, hi, .inr ⟨src, f, hp, rfl, hx⟩⟩
+        | ok expanded =>
+          rw [hx] at h
+          simp only at h
+          exact absurd h (selectSub_ne_cycleErr _ _ _)
 
-/-- an object that is not a well-formed include statement never produces the cycle error itself -/
-theorem includeHere_defn_not_include (fs : FS) (fuel : Nat) (refdir : Path) (stack : List Path)
-    (m : Meta) (ws : List Word) (h : includeTarget (.defn m ws) = none) :
-    includeHere fs fuel refdir stack (.defn m ws) ≠ .error cycleErr := by
-  unfold includeHere
-  simp only [Obj.meta]
-  split
-  · simp
-  · rename_i hd
-    split
-    · simp
-    · rename_i hn
-      split
-      · simp
-      · rename_i hdol
-        split
-        · simp
-        · split
-          · rename_i hty
-            split
-            · simp
-            · rename_i hlen
-              exfalso
-              match ws, hlen with
-              | [], hlen => simp at hlen
-              | [_], hlen => simp at hlen
-              | _ :: _ :: _ :: _, hlen => simp at hlen
-              | [w1, w2], _ =>
-                simp only [List.headD_cons] at hty
-                simp [includeTarget] at h
-                simp at hd hn
-                exact h hd hn (by simpa using hdol) (by simpa using hty)
-          · split <;> simp
+/-- a successful `include scope p [sub]`: the import is known, its text parses, there is fuel, its own
+    includes are processed successfully, and the result is the selection from that expansion -/
+theorem includeScope_ok (env : IncEnv) (fuel : Nat) (stack : List Path) (p : Str) (sub : Option Str)
+    (line : Option Nat) (res : List Obj) (h : includeScope env fuel stack p sub line = .ok res) :
+    ∃ text src f expanded, env.imported p = some text ∧ parseObjs text = .ok src ∧ fuel = f + 1 ∧
+      processIncludes env f env.cwd stack src = .ok expanded ∧ selectSub expanded sub line = .ok res := by
+  unfold includeScope at h
+  cases hi : env.imported p with
+  | none => rw [hi] at h; cases h
+  | some text =>
+    rw [hi] at h
+    simp only at h
+    cases hp : parseObjs text with
+    | error e => rw [hp] at h; cases h
+    | ok src =>
+      rw [hp] at h
+      simp only at h
+      cases fuel with
+      | zero => cases h
+      | succ f =>
+        simp only at h
+        cases hx : processIncludes env f env.cwd stack src with
+        | error e => rw [hx] at h; cases h
+        | ok expanded =>
+          rw [hx] at h
+          simp only at h
+          exact ⟨text, src, f, expanded, rfl, hp, rfl, hx, h⟩
 
-mutual
-/-- the names of the include statements that `processIncludes` follows: well-formed enabled
-    `include file` statements at top level or inside enabled scopes -/
-def includeTargetsObj : Obj → List Str
-  | .defn m ws => (includeTarget (.defn m ws)).toList
-  | .scope m kids => if m.disabled then [] else includeTargets kids
-def includeTargets : List Obj → List Str
-  | [] => []
-  | o :: os => includeTargetsObj o ++ includeTargets os
-end
-
-/-- the cycle error of a processed list comes from one of the followed include statements -/
-theorem processIncludes_cycle_source (fs : FS) (fuel : Nat) (refdir : Path) (stack : List Path)
+/-- the cycle error of a processed list comes from one of the followed include statements: an
+    `include file` whose expansion ends with it, or an `include scope` (see `ScopeCycleSrc`) -/
+theorem processIncludes_cycle_source (env : IncEnv) (fuel : Nat) (refdir : Path) (stack : List Path)
     (objs : List Obj) :
-    processIncludes fs fuel refdir stack objs = .error cycleErr →
-      ∃ n ∈ includeTargets objs, expandFile fs fuel (resolvePath refdir n) stack = .error cycleErr := by
+    processIncludes env fuel refdir stack objs = .error cycleErr →
+      (∃ n ∈ includeTargets objs, expandFile env fuel (resolvePath refdir n) stack = .error cycleErr) ∨
+      (∃ q ∈ scopeTargets objs, ScopeCycleSrc env fuel stack q) := by
   induction objs using Obj.rec_1
-    (motive_1 := fun o => includeHere fs fuel refdir stack o = .error cycleErr →
-      ∃ n ∈ includeTargetsObj o, expandFile fs fuel (resolvePath refdir n) stack = .error cycleErr) with
+    (motive_1 := fun o => includeHere env fuel refdir stack o = .error cycleErr →
+      (∃ n ∈ includeTargetsObj o, expandFile env fuel (resolvePath refdir n) stack = .error cycleErr) ∨
+      (∃ q ∈ scopeTargetsObj o, ScopeCycleSrc env fuel stack q)) with
   | defn m ws =>
     rename_i h
     cases ht : includeTarget (.defn m ws) with
-    | none => exact absurd h (includeHere_defn_not_include fs fuel refdir stack m ws ht)
     | some n =>
-      rw [includeHere_include' fs fuel refdir stack _ n ht] at h
-      exact ⟨n, by simp [includeTargetsObj, ht], h⟩
+      rw [includeHere_include' env fuel refdir stack _ n ht] at h
+      exact .inl ⟨n, by simp [includeTargetsObj, ht], h⟩
+    | none =>
+      cases hst : scopeTarget (.defn m ws) with
+      | none => exact absurd rfl (includeHere_defn_other env fuel refdir stack m ws ht hst _ h).2
+      | some ps =>
+        obtain ⟨p, sub⟩ := ps
+        rw [includeHere_scope env fuel refdir stack _ p sub hst] at h
+        exact .inr ⟨p, by simp [scopeTargetsObj, hst], includeScope_cycle _ _ _ _ _ _ h⟩
   | scope m kids ih =>
     rename_i h
     unfold includeHere at h
@@ -678,32 +1102,34 @@ theorem processIncludes_cycle_source (fs : FS) (fuel : Nat) (refdir : Path) (sta
     · simp [hd] at h
     · simp only [hd] at h
       have := ih ((Except.map_eq_error _ _ _).mp h)
-      simpa [includeTargetsObj, hd] using this
+      simpa [includeTargetsObj, scopeTargetsObj, hd] using this
   | nil => intro h; rw [processIncludes_nil] at h; cases h
   | cons o rest iho ihr =>
     intro h
     rw [processIncludes_cons] at h
-    cases hh : includeHere fs fuel refdir stack o with
+    cases hh : includeHere env fuel refdir stack o with
     | error e =>
       rw [hh] at h
       simp only at h
       cases h
-      obtain ⟨n, hn, he⟩ := iho hh
-      exact ⟨n, by simp [includeTargets, hn], he⟩
+      rcases iho hh with ⟨n, hn, he⟩ | ⟨q, hq, he⟩
+      · exact .inl ⟨n, by simp [includeTargets, hn], he⟩
+      · exact .inr ⟨q, by simp [scopeTargets, hq], he⟩
     | ok l =>
       rw [hh] at h
       simp only at h
-      obtain ⟨n, hn, he⟩ := ihr ((Except.map_eq_error _ _ _).mp h)
-      exact ⟨n, by simp [includeTargets, hn], he⟩
+      rcases ihr ((Except.map_eq_error _ _ _).mp h) with ⟨n, hn, he⟩ | ⟨q, hq, he⟩
+      · exact .inl ⟨n, by simp [includeTargets, hn], he⟩
+      · exact .inr ⟨q, by simp [scopeTargets, hq], he⟩
 
 /-- if a list is processed successfully, every followed include statement was expanded successfully -/
-theorem processIncludes_ok_targets (fs : FS) (fuel : Nat) (refdir : Path) (stack : List Path)
+theorem processIncludes_ok_targets (env : IncEnv) (fuel : Nat) (refdir : Path) (stack : List Path)
     (objs : List Obj) :
-    ∀ res, processIncludes fs fuel refdir stack objs = .ok res →
-      ∀ n ∈ includeTargets objs, ∃ res', expandFile fs fuel (resolvePath refdir n) stack = .ok res' := by
+    ∀ res, processIncludes env fuel refdir stack objs = .ok res →
+      ∀ n ∈ includeTargets objs, ∃ res', expandFile env fuel (resolvePath refdir n) stack = .ok res' := by
   induction objs using Obj.rec_1
-    (motive_1 := fun o => ∀ res, includeHere fs fuel refdir stack o = .ok res →
-      ∀ n ∈ includeTargetsObj o, ∃ res', expandFile fs fuel (resolvePath refdir n) stack = .ok res') with
+    (motive_1 := fun o => ∀ res, includeHere env fuel refdir stack o = .ok res →
+      ∀ n ∈ includeTargetsObj o, ∃ res', expandFile env fuel (resolvePath refdir n) stack = .ok res') with
   | defn m ws =>
     rename_i res h n hn
     cases ht : includeTarget (.defn m ws) with
@@ -711,7 +1137,7 @@ theorem processIncludes_ok_targets (fs : FS) (fuel : Nat) (refdir : Path) (stack
     | some n' =>
       simp [includeTargetsObj, ht] at hn
       subst hn
-      rw [includeHere_include' fs fuel refdir stack _ n ht] at h
+      rw [includeHere_include' env fuel refdir stack _ n ht] at h
       exact ⟨res, h⟩
   | scope m kids ih =>
     rename_i res h n hn
@@ -727,7 +1153,7 @@ theorem processIncludes_ok_targets (fs : FS) (fuel : Nat) (refdir : Path) (stack
   | cons o rest iho ihr =>
     intro res h n hn
     rw [processIncludes_cons] at h
-    cases hh : includeHere fs fuel refdir stack o with
+    cases hh : includeHere env fuel refdir stack o with
     | error e => rw [hh] at h; cases h
     | ok l =>
       rw [hh] at h
@@ -738,22 +1164,87 @@ theorem processIncludes_ok_targets (fs : FS) (fuel : Nat) (refdir : Path) (stack
       · exact iho l hh n hn
       · exact ihr r hr n hn
 
-/-- `a` includes `b`: the text of `a` parses and contains a followed include statement whose name
-    resolves, relative to the directory of `a`, to `b` -/
-def Includes (fs : FS) (a b : Path) : Prop :=
-  ∃ t objs n, fs.read a = some t ∧ parseObjs t = .ok objs ∧ n ∈ includeTargets objs ∧
-    resolvePath a.dropLast n = b
+/-- if a list is processed successfully, every followed `include scope` statement names a known import
+    whose text parses and whose own includes were processed successfully -/
+theorem processIncludes_ok_scopeTargets (env : IncEnv) (fuel : Nat) (refdir : Path) (stack : List Path)
+    (objs : List Obj) :
+    ∀ res, processIncludes env fuel refdir stack objs = .ok res →
+      ∀ q ∈ scopeTargets objs, ∃ text src f expanded, env.imported q = some text ∧
+        parseObjs text = .ok src ∧ fuel = f + 1 ∧
+        processIncludes env f env.cwd stack src = .ok expanded := by
+  induction objs using Obj.rec_1
+    (motive_1 := fun o => ∀ res, includeHere env fuel refdir stack o = .ok res →
+      ∀ q ∈ scopeTargetsObj o, ∃ text src f expanded, env.imported q = some text ∧
+        parseObjs text = .ok src ∧ fuel = f + 1 ∧
+        processIncludes env f env.cwd stack src = .ok expanded) with
+  | defn m ws =>
+    rename_i res h q hq
+    cases hst : scopeTarget (.defn m ws) with
+    | none => simp [scopeTargetsObj, hst] at hq
+    | some ps =>
+      obtain ⟨p, sub⟩ := ps
+      simp [scopeTargetsObj, hst] at hq
+      subst hq
+      rw [includeHere_scope env fuel refdir stack _ q sub hst] at h
+      obtain ⟨text, src, f, expanded, h1, h2, h3, h4, _⟩ := includeScope_ok _ _ _ _ _ _ _ h
+      exact ⟨text, src, f, expanded, h1, h2, h3, h4⟩
+  | scope m kids ih =>
+    rename_i res h q hq
+    unfold includeHere at h
+    simp only [Obj.meta] at h
+    by_cases hd : m.disabled = true
+    · simp [scopeTargetsObj, hd] at hq
+    · simp only [hd] at h
+      simp only [scopeTargetsObj, hd] at hq
+      obtain ⟨ks, hks, _⟩ := (Except.map_eq_ok _ _ _).mp h
+      exact ih ks hks q hq
+  | nil => intro res h q hq; simp [scopeTargets] at hq
+  | cons o rest iho ihr =>
+    intro res h q hq
+    rw [processIncludes_cons] at h
+    cases hh : includeHere env fuel refdir stack o with
+    | error e => rw [hh] at h; cases h
+    | ok l =>
+      rw [hh] at h
+      simp only at h
+      obtain ⟨r, hr, _⟩ := (Except.map_eq_ok _ _ _).mp h
+      simp only [scopeTargets, List.mem_append] at hq
+      rcases hq with hq | hq
+      · exact iho l hh q hq
+      · exact ihr r hr q hq
 
-/-- `IncWalk fs a st p st'`: starting the expansion of `a` with stack `st`, a chain of include
+/-- `ReachFile env refdir objs b`: processing `objs` with reference directory `refdir` leads to the
+    expansion of the file `b` without entering another file first — through a followed `include file`
+    statement of `objs`, or through a chain of followed `include scope` statements ending in an
+    `include file` statement, whose name is resolved against `env.cwd` -/
+inductive ReachFile (env : IncEnv) : Path → List Obj → Path → Prop
+  | file {refdir : Path} {objs : List Obj} {b : Path} (n : Str) :
+      n ∈ includeTargets objs → resolvePath refdir n = b → ReachFile env refdir objs b
+  | scope {refdir : Path} {objs : List Obj} {b : Path} (q : Str) (text : Str) (src : List Obj) :
+      q ∈ scopeTargets objs → env.imported q = some text → parseObjs text = .ok src →
+      ReachFile env env.cwd src b → ReachFile env refdir objs b
+
+/-- `a` includes `b`: the text of `a` parses, and its objects lead to the expansion of `b`
+    (`ReachFile`, relative to the directory of `a`) -/
+def Includes (env : IncEnv) (a b : Path) : Prop :=
+  ∃ t objs, env.fs.read a = some t ∧ parseObjs t = .ok objs ∧ ReachFile env a.dropLast objs b
+
+/-- the direct case: an `include file` statement of `a` whose name resolves to `b` -/
+theorem Includes.direct {env : IncEnv} {a b : Path} (t : Str) (objs : List Obj) (n : Str)
+    (hr : env.fs.read a = some t) (hp : parseObjs t = .ok objs) (hn : n ∈ includeTargets objs)
+    (hres : resolvePath a.dropLast n = b) : Includes env a b :=
+  ⟨t, objs, hr, hp, .file n hn hres⟩
+
+/-- `IncWalk env a st p st'`: starting the expansion of `a` with stack `st`, a chain of include
     statements leads to the expansion of `p` with stack `st'` (= `st` followed by the files of the
-    chain before `p`) -/
-inductive IncWalk (fs : FS) : Path → List Path → Path → List Path → Prop
-  | here (p : Path) (st : List Path) : IncWalk fs p st p st
+    chain before `p`; imported scopes are not pushed) -/
+inductive IncWalk (env : IncEnv) : Path → List Path → Path → List Path → Prop
+  | here (p : Path) (st : List Path) : IncWalk env p st p st
   | step {a b : Path} {st : List Path} {p : Path} {st' : List Path} :
-      Includes fs a b → IncWalk fs b (st ++ [a]) p st' → IncWalk fs a st p st'
+      Includes env a b → IncWalk env b (st ++ [a]) p st' → IncWalk env a st p st'
 
-theorem IncWalk.prefix {fs : FS} {a : Path} {st : List Path} {p : Path} {st' : List Path}
-    (h : IncWalk fs a st p st') : st <+: st' := by
+theorem IncWalk.prefix {env : IncEnv} {a : Path} {st : List Path} {p : Path} {st' : List Path}
+    (h : IncWalk env a st p st') : st <+: st' := by
   induction h with
   | here p st => exact List.prefix_refl _
   | step _ _ ih => exact List.IsPrefix.trans (List.prefix_append _ _) ih
@@ -761,54 +1252,126 @@ theorem IncWalk.prefix {fs : FS} {a : Path} {st : List Path} {p : Path} {st' : L
 /-- no file's *parser* outcome is the include-cycle error (the parser has no such error site) -/
 def ParseNoCycleErr (fs : FS) : Prop := ∀ pt ∈ fs, parseObjs pt.2 ≠ .error cycleErr
 
-/-- **soundness of the cycle error**, hypothesis-free form: it is only raised when a chain of
-    include statements leads to a file that is on its own stack (or whose *parser* outcome is that
-    very error — which the parser never produces, see `ParseNoCycleErr`) -/
-theorem cycle_error_sound_gen (fs : FS) :
-    ∀ (fuel : Nat) (path : Path) (stack : List Path),
-      expandFile fs fuel path stack = .error cycleErr →
-      ∃ p st, IncWalk fs path stack p st ∧
-        (p ∈ st ∨ ∃ t, fs.read p = some t ∧ parseObjs t = .error cycleErr) := by
+/-- … and no imported scope's -/
+def ImportsParseNoCycleErr (imports : List (Str × Str)) : Prop :=
+  ∀ pt ∈ imports, parseObjs pt.2 ≠ .error cycleErr
+
+/-- where a cycle error can come from: a chain of include statements from `path` reaches a file `p`
+    that is on its own stack, or a file whose parser outcome is the cycle error -/
+def CycleWitness (env : IncEnv) (path : Path) (stack : List Path) : Prop :=
+  ∃ p st, IncWalk env path stack p st ∧
+    (p ∈ st ∨ ∃ t, env.fs.read p = some t ∧ parseObjs t = .error cycleErr)
+
+/-- **soundness of the cycle error**, both functions at once -/
+theorem cycle_error_sound_both (env : IncEnv) :
+    ∀ (fuel : Nat),
+      (∀ (path : Path) (stack : List Path), expandFile env fuel path stack = .error cycleErr →
+        (∃ pt ∈ env.imports, parseObjs pt.2 = .error cycleErr) ∨ CycleWitness env path stack) ∧
+      (∀ (refdir : Path) (stack : List Path) (objs : List Obj),
+        processIncludes env fuel refdir stack objs = .error cycleErr →
+        (∃ pt ∈ env.imports, parseObjs pt.2 = .error cycleErr) ∨
+        ∃ b, ReachFile env refdir objs b ∧ CycleWitness env b stack) := by
   intro fuel
   induction fuel with
-  | zero => intro path stack h; rw [expandFile_zero] at h; cases h
+  | zero =>
+    have hE : ∀ (path : Path) (stack : List Path), expandFile env 0 path stack = .error cycleErr →
+        (∃ pt ∈ env.imports, parseObjs pt.2 = .error cycleErr) ∨ CycleWitness env path stack := by
+      intro path stack h; rw [expandFile_zero] at h; cases h
+    refine ⟨hE, ?_⟩
+    intro refdir stack objs h
+    rcases processIncludes_cycle_source env 0 refdir stack objs h with ⟨n, hn, he⟩ | ⟨q, hq, text, hi, hc⟩
+    · rw [expandFile_zero] at he; cases he
+    · rcases hc with hc | ⟨src, f, _, hf, _⟩
+      · exact .inl ⟨(q, text), IncEnv.imported_some_mem hi, hc⟩
+      · cases hf
   | succ f ih =>
-    intro path stack h
-    rw [expandFile_succ] at h
-    cases hr : fs.read path with
-    | none => rw [hr] at h; cases h
-    | some text =>
-      rw [hr] at h
-      simp only at h
-      cases hp : parseObjs text with
-      | error e =>
-        rw [hp] at h
+    have hE : ∀ (path : Path) (stack : List Path), expandFile env (f + 1) path stack = .error cycleErr →
+        (∃ pt ∈ env.imports, parseObjs pt.2 = .error cycleErr) ∨ CycleWitness env path stack := by
+      intro path stack h
+      rw [expandFile_succ] at h
+      cases hr : env.fs.read path with
+      | none => rw [hr] at h; cases h
+      | some text =>
+        rw [hr] at h
         simp only at h
-        cases h
-        exact ⟨path, stack, .here _ _, .inr ⟨text, hr, hp⟩⟩
-      | ok objs =>
-        rw [hp] at h
-        simp only at h
-        by_cases hc : stack.contains path = true
-        · exact ⟨path, stack, .here _ _, .inl (List.contains_iff_mem.mp hc)⟩
-        · simp only [hc] at h
-          obtain ⟨n, hn, he⟩ := processIncludes_cycle_source fs f _ _ objs h
-          obtain ⟨p, st, hw, hm⟩ := ih _ _ he
-          exact ⟨p, st, .step ⟨text, objs, n, hr, hp, hn, rfl⟩ hw, hm⟩
+        cases hp : parseObjs text with
+        | error e =>
+          rw [hp] at h
+          simp only at h
+          cases h
+          exact .inr ⟨path, stack, .here _ _, .inr ⟨text, hr, hp⟩⟩
+        | ok objs =>
+          rw [hp] at h
+          simp only at h
+          by_cases hc : stack.contains path = true
+          · exact .inr ⟨path, stack, .here _ _, .inl (List.contains_iff_mem.mp hc)⟩
+          · simp only [hc] at h
+            rcases ih.2 _ _ objs h with hx | ⟨b, hb, p, st, hw, hm⟩
+            · exact .inl hx
+            · exact .inr ⟨p, st, .step ⟨text, objs, hr, hp, hb⟩ hw, hm⟩
+    refine ⟨hE, ?_⟩
+    intro refdir stack objs h
+    rcases processIncludes_cycle_source env (f + 1) refdir stack objs h with
+      ⟨n, hn, he⟩ | ⟨q, hq, text, hi, hc⟩
+    · rcases hE _ _ he with hx | hw
+      · exact .inl hx
+      · exact .inr ⟨_, .file n hn rfl, hw⟩
+    · rcases hc with hc | ⟨src, f', hp, hf, hx⟩
+      · exact .inl ⟨(q, text), IncEnv.imported_some_mem hi, hc⟩
+      · have hf' : f' = f := by omega
+        subst hf'
+        rcases ih.2 _ _ src hx with hx | ⟨b, hb, hw⟩
+        · exact .inl hx
+        · exact .inr ⟨b, .scope q text src hq hi hp hb, hw⟩
 
-theorem cycle_error_sound (fs : FS) (hpc : ParseNoCycleErr fs) (fuel : Nat) (path : Path)
-    (stack : List Path) (h : expandFile fs fuel path stack = .error cycleErr) :
-    ∃ p st, IncWalk fs path stack p st ∧ p ∈ st := by
-  obtain ⟨p, st, hw, hm⟩ := cycle_error_sound_gen fs fuel path stack h
-  rcases hm with hm | ⟨t, hr, hp⟩
-  · exact ⟨p, st, hw, hm⟩
-  · exact absurd hp (hpc _ (FS.read_some_mem hr))
+/-- **soundness of the cycle error**, hypothesis-free form: it is only raised when a chain of
+    include statements (through files and imported scopes) leads to a file that is on its own stack
+    — or the *parser* outcome of a file of the chain or of an imported scope is that very error
+    (which the parser never produces, see `ParseNoCycleErr`) -/
+theorem cycle_error_sound_gen (env : IncEnv) (fuel : Nat) (path : Path) (stack : List Path)
+    (h : expandFile env fuel path stack = .error cycleErr) :
+    (∃ pt ∈ env.imports, parseObjs pt.2 = .error cycleErr) ∨
+    ∃ p st, IncWalk env path stack p st ∧
+      (p ∈ st ∨ ∃ t, env.fs.read p = some t ∧ parseObjs t = .error cycleErr) :=
+  (cycle_error_sound_both env fuel).1 path stack h
+
+theorem cycle_error_sound (env : IncEnv) (hpc : ParseNoCycleErr env.fs)
+    (hpi : ImportsParseNoCycleErr env.imports) (fuel : Nat) (path : Path)
+    (stack : List Path) (h : expandFile env fuel path stack = .error cycleErr) :
+    ∃ p st, IncWalk env path stack p st ∧ p ∈ st := by
+  rcases cycle_error_sound_gen env fuel path stack h with ⟨pt, hm, hp⟩ | ⟨p, st, hw, hm⟩
+  · exact absurd hp (hpi pt hm)
+  · rcases hm with hm | ⟨t, hr, hp⟩
+    · exact ⟨p, st, hw, hm⟩
+    · exact absurd hp (hpc _ (FS.read_some_mem hr))
+
+/-- if a list is processed successfully, every file it leads to (`ReachFile`) was expanded
+    successfully with the same stack -/
+theorem reachFile_ok (env : IncEnv) (stack : List Path) {refdir : Path} {objs : List Obj} {b : Path}
+    (hreach : ReachFile env refdir objs b) :
+    ∀ (fuel : Nat) (res : List Obj), processIncludes env fuel refdir stack objs = .ok res →
+      ∃ fuel' res', expandFile env fuel' b stack = .ok res' := by
+  induction hreach with
+  | file n hn hres =>
+    intro fuel res h
+    obtain ⟨res', hres'⟩ := processIncludes_ok_targets env fuel _ _ _ res h n hn
+    rw [hres] at hres'
+    exact ⟨fuel, res', hres'⟩
+  | scope q text src hq hi hp _ ih =>
+    intro fuel res h
+    obtain ⟨text', src', f, expanded, h1, h2, h3, h4⟩ :=
+      processIncludes_ok_scopeTargets env fuel _ _ _ res h q hq
+    rw [hi] at h1
+    cases h1
+    rw [hp] at h2
+    cases h2
+    exact ih f expanded h4
 
 /-- **every cycle is detected**: if the expansion succeeds, no chain of include statements
     starting from it leads to a file that is on its own stack -/
-theorem ok_no_cycle (fs : FS) {a : Path} {st : List Path} {p : Path} {st' : List Path}
-    (hw : IncWalk fs a st p st') :
-    ∀ (fuel : Nat) (res : List Obj), expandFile fs fuel a st = .ok res → p ∉ st' := by
+theorem ok_no_cycle (env : IncEnv) {a : Path} {st : List Path} {p : Path} {st' : List Path}
+    (hw : IncWalk env a st p st') :
+    ∀ (fuel : Nat) (res : List Obj), expandFile env fuel a st = .ok res → p ∉ st' := by
   induction hw with
   | here p st =>
     intro fuel res h hin
@@ -817,7 +1380,7 @@ theorem ok_no_cycle (fs : FS) {a : Path} {st : List Path} {p : Path} {st' : List
     | succ f =>
       rw [expandFile_succ] at h
       have hc : st.contains p = true := List.contains_iff_mem.mpr hin
-      cases hr : fs.read p with
+      cases hr : env.fs.read p with
       | none => rw [hr] at h; cases h
       | some text =>
         rw [hr] at h
@@ -827,7 +1390,7 @@ theorem ok_no_cycle (fs : FS) {a : Path} {st : List Path} {p : Path} {st' : List
         | ok objs => rw [hp] at h; simp [hin] at h
   | @step a b st p st' hinc _ ih =>
     intro fuel res h
-    obtain ⟨t, objs, n, hr, hp, hn, hres⟩ := hinc
+    obtain ⟨t, objs, hr, hp, hreach⟩ := hinc
     cases fuel with
     | zero => rw [expandFile_zero] at h; cases h
     | succ f =>
@@ -836,17 +1399,16 @@ theorem ok_no_cycle (fs : FS) {a : Path} {st : List Path} {p : Path} {st' : List
       by_cases hc : st.contains a = true
       · simp only [hc, ↓reduceIte] at h; cases h
       · simp only [hc] at h
-        obtain ⟨res', hres'⟩ := processIncludes_ok_targets fs f _ _ objs res h n hn
-        rw [hres] at hres'
-        exact ih f res' hres'
+        obtain ⟨fuel', res', hres'⟩ := reachFile_ok env _ hreach f res h
+        exact ih fuel' res' hres'
 
 /-! ### textual inlining -/
 
-theorem includeHere_noInclude (fs : FS) (fuel : Nat) (refdir : Path) (stack : List Path) (o : Obj)
-    (h : NoIncludeObj o = true) : includeHere fs fuel refdir stack o = .ok [resetTmplObj o] := by
-  have := no_include_identity fs fuel refdir stack [o] (by simp [NoInclude, h])
+theorem includeHere_noInclude (env : IncEnv) (fuel : Nat) (refdir : Path) (stack : List Path) (o : Obj)
+    (h : NoIncludeObj o = true) : includeHere env fuel refdir stack o = .ok [resetTmplObj o] := by
+  have := no_include_identity env fuel refdir stack [o] (by simp [NoInclude, h])
   rw [processIncludes_cons, processIncludes_nil] at this
-  cases hh : includeHere fs fuel refdir stack o with
+  cases hh : includeHere env fuel refdir stack o with
   | error e => rw [hh] at this; cases this
   | ok l =>
     rw [hh] at this
@@ -855,56 +1417,169 @@ theorem includeHere_noInclude (fs : FS) (fuel : Nat) (refdir : Path) (stack : Li
 
 /-- **inlining law for a list**: include-free objects, then an include statement, then anything:
     the statement is replaced by the expansion of the file its name resolves to -/
-theorem processIncludes_split (fs : FS) (fuel : Nat) (refdir : Path) (stack : List Path)
+theorem processIncludes_split (env : IncEnv) (fuel : Nat) (refdir : Path) (stack : List Path)
     (pre post : List Obj) (i : Obj) (n : Str) (hpre : NoInclude pre = true)
     (hi : includeTarget i = some n) :
-    processIncludes fs fuel refdir stack (pre ++ i :: post) =
-      match expandFile fs fuel (resolvePath refdir n) stack with
+    processIncludes env fuel refdir stack (pre ++ i :: post) =
+      match expandFile env fuel (resolvePath refdir n) stack with
       | .error e => .error e
-      | .ok l => (processIncludes fs fuel refdir stack post).map (fun r => resetTmpl pre ++ (l ++ r)) := by
-  rw [processIncludes_append, no_include_identity fs fuel refdir stack pre hpre]
+      | .ok l => (processIncludes env fuel refdir stack post).map (fun r => resetTmpl pre ++ (l ++ r)) := by
+  rw [processIncludes_append, no_include_identity env fuel refdir stack pre hpre]
   simp only
-  rw [processIncludes_cons, includeHere_include' fs fuel refdir stack i n hi]
-  cases expandFile fs fuel (resolvePath refdir n) stack with
+  rw [processIncludes_cons, includeHere_include' env fuel refdir stack i n hi]
+  cases expandFile env fuel (resolvePath refdir n) stack with
   | error e => rfl
   | ok l =>
     simp only
-    cases processIncludes fs fuel refdir stack post with
+    cases processIncludes env fuel refdir stack post with
     | error e => rfl
     | ok r => rfl
 
 /-- **inlining law for a file**: the names of a file's include statements are resolved against the
     directory of that file, and the expansion happens with the file pushed on the stack -/
-theorem expandFile_split (fs : FS) (f : Nat) (a : Path) (stack : List Path) (t : Str)
+theorem expandFile_split (env : IncEnv) (f : Nat) (a : Path) (stack : List Path) (t : Str)
     (pre post : List Obj) (i : Obj) (n : Str)
-    (hr : fs.read a = some t) (hp : parseObjs t = .ok (pre ++ i :: post)) (ha : a ∉ stack)
+    (hr : env.fs.read a = some t) (hp : parseObjs t = .ok (pre ++ i :: post)) (ha : a ∉ stack)
     (hpre : NoInclude pre = true) (hi : includeTarget i = some n) :
-    expandFile fs (f + 1) a stack =
-      match expandFile fs f (resolvePath a.dropLast n) (stack ++ [a]) with
+    expandFile env (f + 1) a stack =
+      match expandFile env f (resolvePath a.dropLast n) (stack ++ [a]) with
       | .error e => .error e
-      | .ok l => (processIncludes fs f a.dropLast (stack ++ [a]) post).map
+      | .ok l => (processIncludes env f a.dropLast (stack ++ [a]) post).map
                     (fun r => resetTmpl pre ++ (l ++ r)) := by
-  rw [expandFile_fresh fs f a stack t _ ha hr hp]
-  exact processIncludes_split fs f _ _ pre post i n hpre hi
+  rw [expandFile_fresh env f a stack t _ ha hr hp]
+  exact processIncludes_split env f _ _ pre post i n hpre hi
 
 /-- an include statement that leads back to a file being expanded (the including file itself or one
     further up the stack) makes the expansion fail with the cycle error -/
-theorem expandFile_back_edge (fs : FS) (f : Nat) (a q : Path) (stack : List Path) (t tq : Str)
+theorem expandFile_back_edge (env : IncEnv) (f : Nat) (a q : Path) (stack : List Path) (t tq : Str)
     (pre post oq : List Obj) (i : Obj) (n : Str)
-    (hr : fs.read a = some t) (hp : parseObjs t = .ok (pre ++ i :: post)) (ha : a ∉ stack)
+    (hr : env.fs.read a = some t) (hp : parseObjs t = .ok (pre ++ i :: post)) (ha : a ∉ stack)
     (hpre : NoInclude pre = true) (hi : includeTarget i = some n)
     (hq : resolvePath a.dropLast n = q) (hmem : q ∈ stack ++ [a])
-    (hrq : fs.read q = some tq) (hpq : parseObjs tq = .ok oq) :
-    expandFile fs (f + 2) a stack = .error cycleErr := by
-  rw [expandFile_split fs (f + 1) a stack t pre post i n hr hp ha hpre hi, hq,
-    cycle_refused fs f q (stack ++ [a]) tq oq hmem hrq hpq]
+    (hrq : env.fs.read q = some tq) (hpq : parseObjs tq = .ok oq) :
+    expandFile env (f + 2) a stack = .error cycleErr := by
+  rw [expandFile_split env (f + 1) a stack t pre post i n hr hp ha hpre hi, hq,
+    cycle_refused env f q (stack ++ [a]) tq oq hmem hrq hpq]
 
 /-- a reachable include cycle is always reported as an error (never an endless recursion, and — if
     the parser's own fuel suffices — never the model's `outOfFuel`) -/
-theorem cycle_detected (fs : FS) (root p : Path) (st : List Path) (hw : IncWalk fs root [] p st)
-    (hp : p ∈ st) : ∃ e, expand fs root = .error e := by
-  cases h : expand fs root with
+theorem cycle_detected (env : IncEnv) (root p : Path) (st : List Path) (hw : IncWalk env root [] p st)
+    (hp : p ∈ st) : ∃ e, expand env root = .error e := by
+  cases h : expand env root with
   | error e => exact ⟨e, rfl⟩
-  | ok res => exact absurd hp (ok_no_cycle fs hw _ res h)
+  | ok res => exact absurd hp (ok_no_cycle env hw _ res h)
+
+/-! ### 7. `include scope`: splicing an imported scope -/
+
+/-- splice two processed parts: the first error wins, otherwise the lists are concatenated -/
+def splice (a b : R (List Obj)) : R (List Obj) :=
+  match a with
+  | .error e => .error e
+  | .ok l => b.map (fun r => l ++ r)
+
+@[simp] theorem splice_ok_ok (l r : List Obj) : splice (.ok l) (.ok r) = .ok (l ++ r) := rfl
+@[simp] theorem splice_error (e : Err) (b : R (List Obj)) : splice (.error e) b = .error e := rfl
+@[simp] theorem splice_ok_error (l : List Obj) (e : Err) : splice (.ok l) (.error e) = .error e := rfl
+
+/-- the spliced result is `l ++ r` exactly when both parts succeed -/
+theorem splice_eq_ok_iff (a b : R (List Obj)) (res : List Obj) :
+    splice a b = .ok res ↔ ∃ l r, a = .ok l ∧ b = .ok r ∧ res = l ++ r := by
+  cases a with
+  | error e => simp
+  | ok l =>
+    cases b with
+    | error e => simp
+    | ok r =>
+      simp only [splice_ok_ok, Except.ok.injEq]
+      constructor
+      · intro h; exact ⟨l, r, rfl, rfl, h.symm⟩
+      · rintro ⟨l', r', hl, hr, h⟩; cases hl; cases hr; exact h.symm
+
+/-- … and otherwise the error of the first failing part -/
+theorem splice_eq_error_iff (a b : R (List Obj)) (e : Err) :
+    splice a b = .error e ↔ a = .error e ∨ ∃ l, a = .ok l ∧ b = .error e := by
+  cases a with
+  | error e' => simp
+  | ok l =>
+    cases b with
+    | error e' => simp
+    | ok r => simp
+
+theorem processIncludes_cons_splice (env : IncEnv) (fuel : Nat) (refdir : Path) (stack : List Path)
+    (o : Obj) (rest : List Obj) :
+    processIncludes env fuel refdir stack (o :: rest) =
+      splice (includeHere env fuel refdir stack o) (processIncludes env fuel refdir stack rest) := by
+  rw [processIncludes_cons]; rfl
+
+theorem processIncludes_append_splice (env : IncEnv) (fuel : Nat) (refdir : Path) (stack : List Path)
+    (a b : List Obj) :
+    processIncludes env fuel refdir stack (a ++ b) =
+      splice (processIncludes env fuel refdir stack a) (processIncludes env fuel refdir stack b) := by
+  rw [processIncludes_append]; rfl
+
+/-- a well-formed `include scope` statement at the head of a list -/
+theorem processIncludes_scope_cons (env : IncEnv) (fuel : Nat) (refdir : Path) (stack : List Path)
+    (o : Obj) (rest : List Obj) (p : Str) (sub : Option Str) (h : scopeTarget o = some (p, sub)) :
+    processIncludes env fuel refdir stack (o :: rest) =
+      splice (includeScope env fuel stack p sub o.meta.line)
+        (processIncludes env fuel refdir stack rest) := by
+  rw [processIncludes_cons_splice, includeHere_scope env fuel refdir stack o p sub h]
+
+/-- a known import whose text parses: its own includes are processed first (fuel `f`, reference
+    directory `env.cwd`, the same stack), then the sub-path is selected from the *expanded* objects -/
+theorem includeScope_known (env : IncEnv) (f : Nat) (stack : List Path) (p : Str) (sub : Option Str)
+    (line : Option Nat) (text : Str) (src : List Obj) (hi : env.imported p = some text)
+    (hp : parseObjs text = .ok src) :
+    includeScope env (f + 1) stack p sub line =
+      (processIncludes env f env.cwd stack src).bind (fun expanded => selectSub expanded sub line) := by
+  unfold includeScope
+  simp only [hi, hp]
+  cases processIncludes env f env.cwd stack src <;> rfl
+
+/-- the contribution of an `include scope` statement does not depend on the reference directory -/
+theorem includeHere_scope_refdir_indep (env : IncEnv) (fuel : Nat) (refdir refdir' : Path)
+    (stack : List Path) (o : Obj) (p : Str) (sub : Option Str) (h : scopeTarget o = some (p, sub)) :
+    includeHere env fuel refdir stack o = includeHere env fuel refdir' stack o := by
+  rw [includeHere_scope env fuel refdir stack o p sub h, includeHere_scope env fuel refdir' stack o p sub h]
+
+/-- include-free objects, then an `include file` statement, then anything (`splice` form) -/
+theorem processIncludes_split_splice (env : IncEnv) (fuel : Nat) (refdir : Path) (stack : List Path)
+    (pre post : List Obj) (i : Obj) (n : Str) (hpre : NoInclude pre = true)
+    (hi : includeTarget i = some n) :
+    processIncludes env fuel refdir stack (pre ++ i :: post) =
+      splice (.ok (resetTmpl pre))
+        (splice (expandFile env fuel (resolvePath refdir n) stack)
+          (processIncludes env fuel refdir stack post)) := by
+  rw [processIncludes_append_splice, no_include_identity env fuel refdir stack pre hpre,
+    processIncludes_cons_splice, includeHere_include' env fuel refdir stack i n hi]
+
+/-- include-free objects, then an `include scope` statement, then anything -/
+theorem processIncludes_split_scope (env : IncEnv) (fuel : Nat) (refdir : Path) (stack : List Path)
+    (pre post : List Obj) (o : Obj) (p : Str) (sub : Option Str) (hpre : NoInclude pre = true)
+    (h : scopeTarget o = some (p, sub)) :
+    processIncludes env fuel refdir stack (pre ++ o :: post) =
+      splice (.ok (resetTmpl pre))
+        (splice (includeScope env fuel stack p sub o.meta.line)
+          (processIncludes env fuel refdir stack post)) := by
+  rw [processIncludes_append_splice, no_include_identity env fuel refdir stack pre hpre,
+    processIncludes_scope_cons env fuel refdir stack o post p sub h]
+
+/-- a file includes a scope whose text includes a file that is being expanded (the including file
+    itself or one further up the stack): the cycle error -/
+theorem expandFile_back_edge_through_scope (env : IncEnv) (f : Nat) (a q : Path) (stack : List Path)
+    (t ts tq : Str) (pre post pre' post' oq : List Obj) (o i : Obj) (p : Str) (sub : Option Str) (n : Str)
+    (hr : env.fs.read a = some t) (hp : parseObjs t = .ok (pre ++ o :: post)) (ha : a ∉ stack)
+    (hpre : NoInclude pre = true) (ho : scopeTarget o = some (p, sub))
+    (his : env.imported p = some ts) (hps : parseObjs ts = .ok (pre' ++ i :: post'))
+    (hpre' : NoInclude pre' = true) (hi : includeTarget i = some n)
+    (hq : resolvePath env.cwd n = q) (hmem : q ∈ stack ++ [a])
+    (hrq : env.fs.read q = some tq) (hpq : parseObjs tq = .ok oq) :
+    expandFile env (f + 3) a stack = .error cycleErr := by
+  rw [expandFile_fresh env (f + 2) a stack t _ ha hr hp,
+    processIncludes_split_scope env (f + 2) _ _ pre post o p sub hpre ho,
+    includeScope_known env (f + 1) _ p sub _ ts _ his hps,
+    processIncludes_split_splice env (f + 1) _ _ pre' post' i n hpre' hi, hq,
+    cycle_refused env f q (stack ++ [a]) tq oq hmem hrq hpq]
+  rfl
 
 end Phil
